@@ -435,6 +435,7 @@ func filesMode(tier, shard, of int) int {
 			if len(h.attrs) > 1 {
 				alts = 8 // every start the runtime can choose when the template ranges over the xattrs map
 			}
+			firstText := ""
 			for alt := 0; alt < alts; alt++ {
 				f := &aa.AppArmorProfileFile{}
 				want := []string{}
@@ -466,6 +467,12 @@ func filesMode(tier, shard, of int) int {
 				}()
 				mapHook = nil
 				in := strings.Split(strings.TrimSpace(text), "\n")
+				if alt == 0 {
+					firstText = text
+				} else if text != firstText {
+					// "rendering the result again reproduces the same text": also from one rendering to the next
+					report("file-text-depends-on-map-order", fmt.Sprintf("the same profile file renders differently under map iteration start %d: %q vs %q", alt, strings.SplitN(text, "{", 2)[0], strings.SplitN(firstText, "{", 2)[0]), in...)
+				}
 				if perr != "" {
 					report("file-not-parsed err="+strings.SplitN(perr, ":", 2)[0], "the rendered profile file does not parse back: "+perr, in...)
 					continue
